@@ -59,3 +59,51 @@ Proof.
           (block_cards_layout _ _ Hdd Td Bd).
   reflexivity.
 Qed.
+
+(* ---- layout -> split: a card's pieces do not depend on its layout ---- *)
+From T4V Require Import C14.ProofsSplit.
+
+Theorem surface_card_layout ls bc ds mn p ps :
+  Forall line_ok ls -> flat_map ptoks ls = (bc ++ ds) :: mn :: p :: ps ->
+  all_chars is_bc bc = true -> all_chars is_digit ds = true -> ds <> "" ->
+  all_chars is_mnemo mn = true -> mn <> "" ->
+  surf_split (content (map line_text ls))
+  = Ok (bc ++ ds, "", mn, join " " (p :: ps) ++ pad (ends_ws (joined ls))).
+Proof.
+  intros Hl Ht Hbc Hds Nds Hmn Nmn.
+  rewrite (content_layout ls Hl), Ht. cbn [nonnil]. rewrite andb_true_r.
+  apply surf_split_rendered; auto.
+  pose proof (ptoks_tokens ls Hl) as Hk. rewrite Ht in Hk.
+  inversion Hk as [|? ? _ Hk1]; subst. inversion Hk1 as [|? ? _ Hk2]; subst. now inversion Hk2.
+Qed.
+
+Theorem data_card_layout ls st ty ds ps :
+  Forall line_ok ls -> flat_map ptoks ls = (st ++ ty ++ ds) :: ps ->
+  all_chars (ceq "*") st = true ->
+  all_chars nondigit ty = true -> (exists c ty', ty = String c ty' /\ is_letter c = true) ->
+  all_chars is_digit ds = true -> ds <> "" ->
+  data_split (content (map line_text ls))
+  = Ok (st ++ ty, ds, "", match ps with [] => "" | _ => " " ++ join " " ps end
+                          ++ pad (ends_ws (joined ls))).
+Proof.
+  intros Hl Ht Hst Hty Hlet Hds Nds.
+  rewrite (content_layout ls Hl), Ht. cbn [nonnil]. rewrite andb_true_r.
+  now apply data_split_rendered.
+Qed.
+
+(* two layouts of the same tokens: the same split, up to one trailing blank
+   in the parameter string (which its consumers split() away) *)
+Corollary surface_layout_invariant ls ls' bc ds mn p ps :
+  Forall line_ok ls -> Forall line_ok ls' ->
+  flat_map ptoks ls = (bc ++ ds) :: mn :: p :: ps -> flat_map ptoks ls' = flat_map ptoks ls ->
+  all_chars is_bc bc = true -> all_chars is_digit ds = true -> ds <> "" ->
+  all_chars is_mnemo mn = true -> mn <> "" ->
+  exists b b',
+    surf_split (content (map line_text ls)) = Ok (bc ++ ds, "", mn, join " " (p :: ps) ++ pad b) /\
+    surf_split (content (map line_text ls')) = Ok (bc ++ ds, "", mn, join " " (p :: ps) ++ pad b').
+Proof.
+  intros Hl Hl' Ht Ht' Hbc Hds Nds Hmn Nmn. rewrite Ht in Ht'.
+  exists (ends_ws (joined ls)), (ends_ws (joined ls')). split.
+  - now apply surface_card_layout.
+  - now apply surface_card_layout.
+Qed.
